@@ -143,10 +143,44 @@ class Ctx(object):
                 self.tally.merge(_call((fn, it)))
             return self.tally
         import multiprocessing as mp
+        from concurrent.futures import ProcessPoolExecutor, as_completed
+        from concurrent.futures.process import BrokenProcessPool
         ctx = mp.get_context('fork')
-        with ctx.Pool(nproc) as pool:
-            for t in pool.imap(_call, [(fn, it) for it in items], chunksize):
-                self.tally.merge(t)
+        # A worker that dies abruptly (the interpreter itself crashing, an OOM kill) must neither hang the run nor lose
+        # its shard: the executor reports a broken pool, the shards without a result are run again on a fresh pool, and a
+        # shard that kills its worker three times is a harness fault (exit 2), never silence.
+        pending = list(enumerate(items))
+        results, nxt, attempt = {}, 0, 0
+        while pending:
+            attempt += 1
+            workers = nproc if attempt == 1 else max(1, min(nproc // 2, len(pending)))
+            groups = [pending] if attempt < 3 else [[p] for p in pending]     # last attempt: one shard per pool
+            pending = []
+            for group in groups:
+                with ProcessPoolExecutor(min(workers, len(group)), mp_context=ctx) as ex:
+                    futs = {ex.submit(_call, (fn, it)): (i, it) for i, it in group}
+                    for f in as_completed(futs):
+                        i, it = futs[f]
+                        try:
+                            results[i] = f.result()
+                        except BrokenProcessPool:
+                            pending.append((i, it))
+                            continue
+                        while nxt in results:           # merge in item order
+                            self.tally.merge(results.pop(nxt))
+                            nxt += 1
+            pending.sort()
+            if pending:
+                self.tally.hist('worker_process_died', 'attempt %d' % attempt, len(pending))
+            if attempt >= 3 and pending:
+                for i, it in pending:
+                    t = Tally()
+                    t.notes.append('HARNESS-FAULT: the worker process running shard %d died three times (%.200r)' % (i, it))
+                    t.count('harness_faults')
+                    results[i] = t
+                pending = []
+        for i in sorted(results):
+            self.tally.merge(results[i])
         return self.tally
 
     def cap(self, text):
